@@ -110,7 +110,7 @@ Print Assumptions C09_carrier_keys_of_history.
 
 (* the code as it is: the SAME number as float32 and as float64 is counted in two buffers when its float32
    text is shorter (float32(1.1) widened: "1.1" / "1.100000023841858") although the aggregator gives both
-   one group -- the per-key N-blocks are then cut per carrier (known finding FC09a) *)
+   one group -- the per-key N-blocks are then cut per carrier (known finding F46) *)
 Theorem C09_carrier_float32_text_refuted :
   carries GFloat32 w11 = true /\ carries GFloat64 w11 = true
   /\ go_to_string GFloat32 w11 <> go_to_string GFloat64 w11
@@ -126,13 +126,13 @@ Theorem C09_carrier_float32_merge_refuted :
 Proof. exact float32_text_merges_two_numbers. Qed.
 Print Assumptions C09_carrier_float32_merge_refuted.
 
-(* a uint at or above 2^63 is counted under the text of the negative int it wraps to *)
-Theorem C09_carrier_uint_wrap_refuted :
+(* a uint at or above 2^63 keeps its own text (as found it was printed through int(v), which wraps: repaired, F47) *)
+Theorem C09_carrier_uint_no_wrap :
   carries GUint (NumInt 18446744073709551611) = true /\ carries GInt64 (NumInt (-5)) = true
-  /\ go_to_string GUint (NumInt 18446744073709551611) = go_to_string GInt64 (NumInt (-5))
+  /\ go_to_string GUint (NumInt 18446744073709551611) <> go_to_string GInt64 (NumInt (-5))
   /\ go_key_part GUint (NumInt 18446744073709551611) <> go_key_part GInt64 (NumInt (-5)).
-Proof. exact uint_text_wraps. Qed.
-Print Assumptions C09_carrier_uint_wrap_refuted.
+Proof. exact uint_text_no_wrap. Qed.
+Print Assumptions C09_carrier_uint_no_wrap.
 
 (* non-vacuity: uint8(7), float32(7), float64(7) in one column, next to a string column *)
 Example C09_carrier_example :
